@@ -1104,6 +1104,25 @@ func (x *ctx) elemOfFullRange(elem ssa.Value, loop *ssau.Loop, loops []*ssau.Loo
 
 // writesMaterialName: g writes (through txt.Writer.String / fmt) a value derived from Material.Name.
 func (x *ctx) writesMaterialName(g *ssa.Function) bool {
+	// the function itself or one of its closures (entry(func(){ … out.String(name) … }))
+	var all []*ssa.Function
+	var add func(f *ssa.Function)
+	add = func(f *ssa.Function) {
+		all = append(all, f)
+		for _, a := range f.AnonFuncs {
+			add(a)
+		}
+	}
+	add(g)
+	for _, f := range all {
+		if x.writesMaterialName1(f) {
+			return true
+		}
+	}
+	return false
+}
+
+func (x *ctx) writesMaterialName1(g *ssa.Function) bool {
 	matT := lookupType(x.modeling, "Material")
 	nameField := fieldNamed(matT, "Name")
 	if nameField == nil || g.Blocks == nil {
